@@ -334,8 +334,10 @@ PROPS["C13"] = dict(
                "polygon of any number of sides with pairwise distinct darts, a fan that terminates normally leaves exactly n-2 "
                "triangles, each glued to the next along the new edge, every other image untouched (C13_fan_leaves_triangles, by "
                "induction over the spare-dart pairs, after showing that the transactional program refines a pure function on "
-               "images: C13_fan_refines_pure; Map2/FanTopo.v). Ear clipping: per observation; its completeness (two-ears "
-               "theorem) is searched, not proved",
+               "images: C13_fan_refines_pure; Map2/FanTopo.v). Ear clipping: the loop refines a pure function on images whichever "
+               "ears are chosen (C13_earclip_refines_pure), one clipped ear is specified exactly (C13_one_ear: the triangle closed, "
+               "the new dart in its place, the gluing, everything else untouched); the global n-2 count and the completeness "
+               "(two-ears theorem) are decided per observation, not proved",
     technique="Coq model of the kernels + correspondence + extracted Coq specification (exact arithmetic) as per-run validator",
     families=[
         Family("kern-tri", "core2", r_kern("tri", 2500, 40000, 2), 1, [(8, "tri_spec", TRI_CLASSES)]),
